@@ -402,3 +402,77 @@ func pdfDecodeData(data []int, feat map[string]int) ([]byte, error) {
 	}
 	return out, nil
 }
+
+// PDFSimpleCodewords returns the number of data codewords (without the length
+// descriptor) of one valid high-level encoding of b: text compaction with sub-mode
+// latches only (no shifts, no numeric compaction) and byte compaction for every run of
+// bytes outside the text sub-modes.  It is an upper bound on what a sensible encoder
+// needs: content that fits with this many codewords is representable.
+func PDFSimpleCodewords(b []byte) int {
+	const inf = 1 << 60
+	var in [4][256]bool // alpha, lower, mixed, punct
+	for c := 'A'; c <= 'Z'; c++ {
+		in[0][c] = true
+	}
+	for c := 'a'; c <= 'z'; c++ {
+		in[1][c] = true
+	}
+	in[0][' '], in[1][' '], in[2][' '] = true, true, true
+	for _, c := range pdfMixedChars {
+		in[2][c] = true
+	}
+	for _, c := range pdfPunctChars {
+		in[3][c] = true
+	}
+	latch := [4][4]int{{0, 1, 1, 2}, {2, 0, 1, 2}, {1, 1, 0, 1}, {1, 2, 2, 0}}
+	isText := func(c byte) bool { return in[0][c] || in[1][c] || in[2][c] || in[3][c] }
+	total := 0
+	i := 0
+	first := true
+	for i < len(b) {
+		j := i
+		if isText(b[i]) {
+			for j < len(b) && isText(b[j]) {
+				j++
+			}
+			// text run: values (half codewords) by DP over sub-modes, starting in alpha
+			cost := [4]int{0, inf, inf, inf}
+			for _, c := range b[i:j] {
+				var rel [4]int
+				for m := 0; m < 4; m++ {
+					rel[m] = inf
+					for a := 0; a < 4; a++ {
+						if cost[a] < inf && cost[a]+latch[a][m] < rel[m] {
+							rel[m] = cost[a] + latch[a][m]
+						}
+					}
+				}
+				for m := 0; m < 4; m++ {
+					cost[m] = inf
+					if in[m][c] && rel[m] < inf {
+						cost[m] = rel[m] + 1
+					}
+				}
+			}
+			best := inf
+			for m := 0; m < 4; m++ {
+				if cost[m] < best {
+					best = cost[m]
+				}
+			}
+			if !first {
+				total++ // 900: back to text compaction
+			}
+			total += (best + 1) / 2
+		} else {
+			for j < len(b) && !isText(b[j]) {
+				j++
+			}
+			n := j - i
+			total += 1 + 5*(n/6) + n%6 // 901/924 and the packed bytes
+		}
+		first = false
+		i = j
+	}
+	return total
+}
